@@ -766,6 +766,10 @@ func (s *programState) makeAllotment(monetary *big.Int, items []parser.Allotment
 			allotments = append(allotments, rat)
 
 		case *parser.RemainingAllotment:
+			if remainingAllotmentIndex != -1 {
+				// each "remaining" would stand for one minus the other portions
+				return nil, DuplicateRemainingErr{Range: allotment.Range}
+			}
 			remainingAllotmentIndex = i
 			allotments = append(allotments, new(big.Rat))
 			// TODO check there are not duplicate remaining clause
